@@ -170,4 +170,10 @@ class Instance:
         Returns:
             State persistence.
         """
+        try:
+            # resolve the implicit (latest) generation now - the accessor gets copied into the individual tasks (by
+            # value under the process-based schedulers) and each copy would otherwise resolve "latest" on its own
+            self._generation.key  # pylint: disable=pointless-statement
+        except forml.MissingError:
+            pass  # nothing trained yet
         return State(self._generation, nodes, tag)
